@@ -982,3 +982,121 @@ Print Assumptions values_segments.
 Print Assumptions seg_atomic.
 Print Assumptions seg_nobrace.
 Print Assumptions qsplit_atomic.
+
+(* ---------------------------------------------------------------- the top-level header when the name may hold colons *)
+
+Definition pqsc (c : ascii) : bool := plain_char c || Ascii.eqb c DQ || Ascii.eqb c SQ.
+
+Lemma mass_pqs : forall x, allc pqsc x = true -> mass_replace x = keepm x.
+Proof.
+  intros x H. transitivity (mass_replace (flat (fun c => String c "") x)).
+  - rewrite (flat_id pqsc _ x); [reflexivity | reflexivity | exact H].
+  - unfold mass_replace. rewrite keepm_flat, (clean_flat mass_pats pqsc).
+    + apply (flat_ext pqsc); [intro c; enum c | exact H].
+    + intro c; enum c.
+    + exact H.
+Qed.
+
+Lemma keepm_psq : forall x, allc psq x = true -> keepm x = x.
+Proof. intros x H. rewrite keepm_flat. apply (flat_id psq); [intro c; enum c | exact H]. Qed.
+
+(* deleting characters other than the separator commutes with str.split *)
+Lemma keepm_split : forall c x, dropped c = false -> map keepm (split_on c x) = split_on c (keepm x).
+Proof.
+  intros c x Hc. induction x as [|y r IH]; [reflexivity|].
+  cbn [split_on keepm]. pose proof (split_on_nonempty c r) as Hn. destruct (dropped y) eqn:D.
+  - assert (E : Ascii.eqb y c = false) by (destruct (Ascii.eqb_spec y c); [subst y; congruence | reflexivity]).
+    rewrite E, <- IH. destruct (split_on c r) as [|h t]; [congruence|]. cbn [map keepm]. rewrite D. reflexivity.
+  - cbn [split_on]. rewrite <- IH. destruct (split_on c r) as [|h t]; [congruence|]. cbn [map].
+    destruct (Ascii.eqb y c); cbn [map keepm]; [reflexivity | rewrite D; reflexivity].
+Qed.
+
+Lemma split_on_allc : forall (P : ascii -> bool) c x, allc P x = true -> forallb (allc P) (split_on c x) = true.
+Proof.
+  intros P c x. induction x as [|y r IH]; intro H; [reflexivity|].
+  cbn [allc] in H. apply andb_true_iff in H. destruct H as [H1 H2]. specialize (IH H2).
+  cbn [split_on]. destruct (split_on c r) as [|h t]; [reflexivity|].
+  cbn [forallb] in IH. apply andb_true_iff in IH. destruct IH as [I1 I2].
+  destruct (Ascii.eqb y c); cbn [forallb allc]; rewrite ?H1, I1, I2; reflexivity.
+Qed.
+
+(* the header branch on a text of plain characters and quotes: the reader's cleaning of a piece is the deletion of the quotes *)
+Lemma vfo_head_gen : forall X a parts, allc pqsc X = true -> no_char ":" X = false ->
+  split_on ":" (keepm X) = a :: parts -> 2 <= List.length parts ->
+  values_from_outside X =
+  Some [("id", PStr (py_strip a)); ("name", PStr (py_strip (nth 0 parts ""))); ("type", PStr (py_strip (nth 1 parts "")))].
+Proof.
+  intros X a parts HX Hc Hs Hl. unfold values_from_outside.
+  assert (E1 : no_char ";" X = true) by nc. rewrite E1, Hc. cbn [andb negb].
+  pose proof (split_on_allc pqsc ":" X HX) as Hp. rewrite <- (keepm_split ":" X eq_refl) in Hs.
+  destruct (split_on ":" X) as [|x0 [|x1 [|x2 rest]]]; cbn [map] in Hs; try discriminate Hs;
+    injection Hs as Ha Hparts; subst parts; cbn [List.length] in Hl; try lia.
+  subst a. cbn [forallb] in Hp. split_and.
+  cbn [nth_str nth_error bind nth]. rewrite !mass_pqs by assumption. reflexivity.
+Qed.
+
+Lemma headok_top_parts : forall id nm ty, headok_top id nm ty = true ->
+  (allc plain_char id = true /\ no_char ":" id = true /\ py_strip id = id /\ id <> "") /\
+  (match nm with Some s => allc plain_char s = true | None => True end) /\
+  (allc plain_char ty = true /\ no_char ":" ty = true /\ py_strip ty = ty /\ ty <> "").
+Proof.
+  intros id nm ty H. unfold headok_top, textok in H. split_and.
+  repeat match goal with H : String.eqb _ _ = true |- _ => apply String.eqb_eq in H end.
+  repeat match goal with H : negb (String.eqb _ _) = true |- _ => apply negb_true_iff in H; apply String.eqb_neq in H end.
+  repeat match goal with H : plain _ = true |- _ => rewrite plain_allc in H end.
+  split; [|split].
+  - repeat split; assumption.
+  - destruct nm as [s|]; [|exact Logic.I]. split_and.
+    repeat match goal with H : plain _ = true |- _ => rewrite plain_allc in H end. assumption.
+  - repeat split; assumption.
+Qed.
+
+Lemma headok_headok_top : forall id nm ty, headok id nm ty = true -> headok_top id nm ty = true.
+Proof.
+  intros id nm ty H. unfold headok in H. unfold headok_top. split_and.
+  repeat match goal with H : _ = true |- _ => rewrite H end.
+  destruct nm as [s|]; [|reflexivity]. split_and. repeat match goal with H : _ = true |- _ => rewrite H end. reflexivity.
+Qed.
+
+Lemma keepm_qname : forall nm, match nm with Some s => allc plain_char s = true | None => True end -> keepm (qname nm) = name_text nm.
+Proof.
+  intros nm H. destruct nm as [s|]; [|reflexivity]. unfold qname, name_text, dq.
+  rewrite !keepm_app, (keepm_plain _ H). change (keepm (String DQ "")) with "". cbn [append]. apply sapp_nil_r.
+Qed.
+
+Lemma values_header_top_c : forall id nm ty, headok_top id nm ty = true ->
+  values_from_outside (String "b" (String SQ (repr_body SQ (head_text id nm ty) ++ String SQ ""))) = Some (top_head id nm ty).
+Proof.
+  intros id nm ty H. destruct (headok_top_parts _ _ _ H) as [[Hi [Hi1 [Hi2 Hi3]]] [Hn [Ht [Ht1 [Ht2 Ht3]]]]].
+  assert (Hq : allc pqc (qname nm) = true) by (unfold qname, dq; destruct nm as [s|]; cls).
+  assert (Hh : allc pqc (head_text id nm ty) = true) by (unfold head_text; cls).
+  rewrite (repr_pq _ Hh). unfold head_text.
+  replace (String "b" (String SQ ((id ++ ":" ++ qname nm ++ ":" ++ ty ++ " ") ++ String SQ "")))
+    with ((String "b" (String SQ "") ++ id) ++ ":" ++ qname nm ++ ":" ++ (ty ++ String " " (String SQ "")))
+    by (repeat first [rewrite !sapp_assoc | progress cbn [append]]; reflexivity).
+  set (A := String "b" (String SQ "") ++ id). set (T := ty ++ String " " (String SQ "")).
+  assert (HA : allc psq A = true) by (unfold A; cls).
+  assert (HT : allc psq T = true) by (unfold T; cls).
+  assert (HAc : no_char ":" A = true) by (unfold A; nc).
+  assert (HTc : no_char ":" T = true) by (unfold T; nc).
+  rewrite (vfo_head_gen _ A (split_on ":" (name_text nm) ++ [T])%list).
+  - unfold top_head. destruct (strip_fix _ Hi2) as [Hir Hil].
+    assert (E1 : py_strip A = A).
+    { unfold A. cbn [append]. unfold py_strip. rewrite !rstrip_cons_ns, Hir by reflexivity. reflexivity. }
+    rewrite E1. reflexivity.
+  - cls.
+  - cbn [append]. apply nc_mid.
+  - rewrite (keepm_app A), (keepm_app ":"), (keepm_app (qname nm)), (keepm_app ":"), (keepm_psq _ HA), (keepm_psq _ HT), (keepm_qname _ Hn).
+    change (keepm ":") with ":". cbn [append]. rewrite split_on_app, split_on_app, (split_on_none _ A HAc), (split_on_none _ T HTc). reflexivity.
+  - rewrite app_length. cbn [List.length]. pose proof (split_on_nonempty ":" (name_text nm)) as Hne.
+    destruct (split_on ":" (name_text nm)); [congruence | cbn [List.length]; lia].
+Qed.
+Print Assumptions values_header_top_c.
+
+(* a name without colon: the header of values_header_top *)
+Lemma top_head_plain : forall id nm ty, headok id nm ty = true ->
+  top_head id nm ty = [("id", PStr (String "b" (String SQ id))); ("name", PStr (name_text nm)); ("type", PStr (ty ++ " '"))].
+Proof.
+  intros id nm ty H. pose proof (values_header_top_c _ _ _ (headok_headok_top _ _ _ H)) as E.
+  rewrite (values_header_top _ _ _ H) in E. symmetry. exact (f_equal (fun o => match o with Some x => x | None => top_head id nm ty end) E).
+Qed.
